@@ -316,6 +316,10 @@ def discharge(F, cg, site, pr, ctxinfo):
             # unwrap of a literal Some(..)
             if s[0] == "agg" and s[1].endswith("Option::Some"):
                 return "R-some-literal"
+    if site.kind == "index" and "RangeFrom<usize>" in site.info.get("index_ty", "") and site.info.get("container", "").startswith("std::vec::Vec<"):
+        r = _range_from_after_index(fn, pr, site)
+        if r:
+            return r
     if site.kind == "panic-call":
         # panic arm of a match on an integer parameter; all callers pass covered constants
         r = callers_const(F, cg, fn, site, pr)
@@ -325,6 +329,38 @@ def discharge(F, cg, site, pr, ctxinfo):
         r = extra(F, cg, site, pr)
         if r:
             return r
+    return None
+
+
+LEN_CHANGING = ("push", "pop", "clear", "truncate", "remove", "swap_remove", "insert", "drain", "resize", "resize_with",
+                "retain", "dedup", "append", "split_off", "extend", "set_len", "shrink_to", "extend_from_slice")
+
+
+def _range_from_after_index(fn, pr, site):
+    """`v[x + 1..]` on a Vec whose element `v[x]` was accessed (bounds-checked) on every path to the site, with no call that
+    can change v's length in the function: x < len, hence x + 1 <= len and the slice start is in range."""
+    args = site.info["args"]
+    if len(args) != 2:
+        return None
+    recv = P.strip(args[0])
+    rng = P.strip(args[1], calls=False)
+    if not (rng[0] == "agg" and rng[1].endswith("RangeFrom::RangeFrom") and len(rng[2]) == 1):
+        return None
+    st = P.strip(rng[2][0])
+    if not (st[0] == "bin" and st[1] == "Add" and P.const_int(st[3]) == 1):
+        return None
+    x = P.strip(st[2])
+    for bi, t in fn.calls():
+        if bi in fn.cfg.reachable and t["callee"].get("name") in LEN_CHANGING and t["args"] and P.strip(pr.operand(t["args"][0])) == recv:
+            return None
+    for bi, t in fn.calls():
+        if bi == site.block or bi not in fn.cfg.reachable or not fn.cfg.dominates(bi, site.block):
+            continue
+        c = t["callee"]
+        if c.get("name") in ("index", "index_mut") and (c.get("trait") or "").startswith("std::ops::Index") and len(t["args"]) == 2:
+            ga = c.get("generic_args") or []
+            if len(ga) > 1 and ga[1] == "usize" and P.strip(pr.operand(t["args"][0])) == recv and P.strip(pr.operand(t["args"][1])) == x:
+                return "R-range-from-after-index"
     return None
 
 
